@@ -100,21 +100,21 @@ package vikja
 //@     emits {C04,C03} []
 //@   behaviour malformed:
 //@     assumes decode_ok(msg) && S != nil && P != nil && (A == nil || A.Name == "" || A.Timestamp == nil)
-//@     ensures {C16} result == nil && unchanged_world()
-//@     emits {C16,C04} [send(respond, hagallpb.ErrorResponse{Type: hagallpb.MsgType_MSG_TYPE_ERROR_RESPONSE, RequestId: req.RequestId, Code: hagallpb.ErrorCode_ERROR_CODE_BAD_REQUEST})]
+//@     ensures {C16,C01} result == nil && unchanged_world()
+//@     emits {C16,C04,C01} [send(respond, hagallpb.ErrorResponse{Type: hagallpb.MsgType_MSG_TYPE_ERROR_RESPONSE, RequestId: req.RequestId, Code: hagallpb.ErrorCode_ERROR_CODE_BAD_REQUEST})]
 //@   behaviour no_entity:
 //@     assumes decode_ok(msg) && S != nil && P != nil && A != nil && A.Name != "" && A.Timestamp != nil && !(A.EntityId in S.entities)
-//@     ensures {C16} result == nil && unchanged_world()
-//@     emits {C16,C04} [send(respond, hagallpb.ErrorResponse{Type: hagallpb.MsgType_MSG_TYPE_ERROR_RESPONSE, RequestId: req.RequestId, Code: hagallpb.ErrorCode_ERROR_CODE_BAD_REQUEST})]
+//@     ensures {C16,C01} result == nil && unchanged_world()
+//@     emits {C16,C04,C01} [send(respond, hagallpb.ErrorResponse{Type: hagallpb.MsgType_MSG_TYPE_ERROR_RESPONSE, RequestId: req.RequestId, Code: hagallpb.ErrorCode_ERROR_CODE_BAD_REQUEST})]
 //@   behaviour stale:
 //@     assumes decode_ok(msg) && S != nil && P != nil && A != nil && A.Name != "" && A.Timestamp != nil && A.EntityId in S.entities && hasAction(St, A.EntityId, A.Name) && A.Timestamp.Seconds * 1000000000 + A.Timestamp.Nanos < inst(actionAt(St, A.EntityId, A.Name).Timestamp)
-//@     ensures {C16} result == nil && unchanged_world()
-//@     emits {C16,C04,C02} [send(respond, hagallpb.ErrorResponse{Type: hagallpb.MsgType_MSG_TYPE_ERROR_RESPONSE, RequestId: req.RequestId, Code: hagallpb.ErrorCode_ERROR_CODE_BAD_REQUEST})]
+//@     ensures {C16,C01} result == nil && unchanged_world()
+//@     emits {C16,C04,C02,C01} [send(respond, hagallpb.ErrorResponse{Type: hagallpb.MsgType_MSG_TYPE_ERROR_RESPONSE, RequestId: req.RequestId, Code: hagallpb.ErrorCode_ERROR_CODE_BAD_REQUEST})]
 //@   behaviour accepted:
 //@     assumes decode_ok(msg) && S != nil && P != nil && A != nil && A.Name != "" && A.Timestamp != nil && A.EntityId in S.entities && !(hasAction(St, A.EntityId, A.Name) && A.Timestamp.Seconds * 1000000000 + A.Timestamp.Nanos < inst(actionAt(St, A.EntityId, A.Name).Timestamp))
-//@     ensures {C16} result == nil && hasAction(St, A.EntityId, A.Name) && actionAt(St, A.EntityId, A.Name) == A
-//@     ensures {C16} forall e: uint32, n: string :: (e != A.EntityId || n != A.Name) ==> (hasAction(St, e, n) <==> old(hasAction(St, e, n))) && (hasAction(St, e, n) ==> actionAt(St, e, n) == old(actionAt(St, e, n)))
-//@     emits {C16,C04,C02} [send(respond, vikjapb.EntityActionResponse{Type: vikjapb.MsgType_MSG_TYPE_VIKJA_ENTITY_ACTION_RESPONSE, RequestId: req.RequestId}); Broadcast(S, P, vikjapb.EntityActionBroadcast{Type: vikjapb.MsgType_MSG_TYPE_VIKJA_ENTITY_ACTION_BROADCAST, OriginTimestamp: req.Timestamp, EntityAction: A})]
+//@     ensures {C16,C01} result == nil && hasAction(St, A.EntityId, A.Name) && actionAt(St, A.EntityId, A.Name) == A
+//@     ensures {C16,C01} forall e: uint32, n: string :: (e != A.EntityId || n != A.Name) ==> (hasAction(St, e, n) <==> old(hasAction(St, e, n))) && (hasAction(St, e, n) ==> actionAt(St, e, n) == old(actionAt(St, e, n)))
+//@     emits {C16,C04,C02,C01} [send(respond, vikjapb.EntityActionResponse{Type: vikjapb.MsgType_MSG_TYPE_VIKJA_ENTITY_ACTION_RESPONSE, RequestId: req.RequestId}); Broadcast(S, P, vikjapb.EntityActionBroadcast{Type: vikjapb.MsgType_MSG_TYPE_VIKJA_ENTITY_ACTION_BROADCAST, OriginTimestamp: req.Timestamp, EntityAction: A})]
 //@   complete behaviours
 //@   disjoint behaviours
 
@@ -137,7 +137,7 @@ package vikja
 //@     ensures result == nil && unchanged_world()
 //@   behaviour cascade:
 //@     assumes decode_ok(msg) && !(id in S.entities)
-//@     ensures {C16,C06} result == nil && forall e: uint32, n: string :: (hasAction(St, e, n) <==> (old(hasAction(St, e, n)) && e != id)) && (hasAction(St, e, n) ==> actionAt(St, e, n) == old(actionAt(St, e, n)))
+//@     ensures {C16,C06,C01} result == nil && forall e: uint32, n: string :: (hasAction(St, e, n) <==> (old(hasAction(St, e, n)) && e != id)) && (hasAction(St, e, n) ==> actionAt(St, e, n) == old(actionAt(St, e, n)))
 //@   complete behaviours
 //@   disjoint behaviours
 
@@ -163,7 +163,7 @@ package vikja
 //@     ensures unchanged_world()
 //@   behaviour bound:
 //@     assumes P != nil
-//@     ensures {C16,C06} forall e: uint32, n: string :: (hasAction(St, e, n) <==> (old(hasAction(St, e, n)) && !(e in P.entityIDs && (!(e in S.entities) || !S.entities[e].Persist)))) && (hasAction(St, e, n) ==> actionAt(St, e, n) == old(actionAt(St, e, n)))
+//@     ensures {C16,C06,C01} forall e: uint32, n: string :: (hasAction(St, e, n) <==> (old(hasAction(St, e, n)) && !(e in P.entityIDs && (!(e in S.entities) || !S.entities[e].Persist)))) && (hasAction(St, e, n) ==> actionAt(St, e, n) == old(actionAt(St, e, n)))
 //@   complete behaviours
 //@   disjoint behaviours
 //@   loop 1:
